@@ -812,4 +812,27 @@ def no_memo(repo: Repo) -> RuleRun:
 no_memo.rule_id = "C10.NO-MEMO"
 
 
-RULES = [face_permutations, edge_map_rule, side_addressing, select_polarity, arguments_untouched, written_sides, no_class_state, affine_kinds, no_shared_parts, corner_patches, beam_list, labels_private, empty_patch, normal_symmetric, no_memo]
+
+def arc_sense(repo: Repo) -> RuleRun:
+    """'the edge between two addressed corners is written with the data given': reversing an edge (invert, mirror) lists its points backwards and leaves every point as it is. Same rule as C09.ARC-SENSE."""
+    from ..report import rebrand
+    from . import c09
+
+    return rebrand(c09.arc_sense(repo), PROP, "C10.ARC-SENSE")
+
+
+arc_sense.rule_id = "C10.ARC-SENSE"
+
+
+def index_range(repo: Repo) -> RuleRun:
+    """'corner k / side edge k addresses exactly that corner': an index guard whose message names a two-sided range rejects both sides - a negative corner number does not silently address the edge counted from the end. Same rule as C20.ONE-SIDED-RANGE."""
+    from ..report import rebrand
+    from . import c20
+
+    return rebrand(c20.one_sided_range(repo), PROP, "C10.INDEX-RANGE")
+
+
+index_range.rule_id = "C10.INDEX-RANGE"
+
+
+RULES = [face_permutations, edge_map_rule, side_addressing, select_polarity, arguments_untouched, written_sides, no_class_state, affine_kinds, no_shared_parts, corner_patches, beam_list, labels_private, empty_patch, normal_symmetric, no_memo, arc_sense, index_range]
